@@ -468,6 +468,10 @@ class Transform(object):
         if not np.any(self._use_quadrants):
             raise ValueError('No image quadrants selected to use')
 
+        if self.direction not in ('forward', 'inverse'):
+            raise ValueError('Wrong direction "{}", must be "forward" or '
+                             '"inverse"'.format(self.direction))
+
         if not isinstance(self._symmetry_axis, (list, tuple)):
             # if the user supplies an int, make it into a 1-element list:
             self._symmetry_axis = [self._symmetry_axis]
